@@ -114,13 +114,31 @@ class Reader:
         return self.i == len(self.t)
 
 
-def mrun(requests):
+SAMPLE = []          # reservoir of (request, answer) pairs for the extraction cross-check
+_seen = [0]
+HEAVY = {1401, 401, 301, 901, 902, 703, 101}
+
+
+def _remember(req, ans):
+    import random as _r
+    if len(req) > 300:
+        return
+    _seen[0] += 1
+    if len(SAMPLE) < 400:
+        SAMPLE.append((list(req), list(ans)))
+    else:
+        k = _r.Random(_seen[0]).randrange(_seen[0])
+        if k < 400:
+            SAMPLE[k] = (list(req), list(ans))
+
+
+def mrun(requests, binary=None, remember=True):
     """Evaluate requests (lists of ints) with the extracted model."""
     if not requests:
         return []
     text = '\n'.join(' '.join(str(int(x)) for x in r) for r in requests) + '\n'
     p = subprocess.run(
-        ['sh', '-c', 'ulimit -s unlimited 2>/dev/null; exec "$0"', MRUN],
+        ['sh', '-c', 'ulimit -s unlimited 2>/dev/null; exec "$0"', binary or MRUN],
         input=text, capture_output=True, text=True,
     )
     if p.returncode != 0:
@@ -137,7 +155,36 @@ def mrun(requests):
         if toks == [MALFORMED]:
             raise RuntimeError('model rejected request as malformed: %r' % (requests[k][:40],))
         out.append(toks)
+    if remember and binary is None:
+        for rq, an in zip(requests, out):
+            _remember(rq, an)
     return out
+
+
+def cross_check(tier):
+    """Validate the fast extraction: the same requests through the ExtrOcamlBasic-only
+    runner (mrun_ref) and, in the thorough tier, inside Coq with vm_compute."""
+    light = [(r, a) for r, a in SAMPLE if not (r[0] in HEAVY and len(r) > 60)]
+    light = light[:40 if tier == 'quick' else 300]
+    res = {'mrun_ref_compared': 0, 'vm_compute_compared': 0, 'mismatches': []}
+    if not light:
+        return res
+    ref = mrun([r for r, _ in light], binary=os.path.join(VERIF, 'bin', 'mrun_ref'), remember=False)
+    res['mrun_ref_compared'] = len(ref)
+    for (r, a), b in zip(light, ref):
+        if a != b:
+            res['mismatches'].append({'request': r[:40], 'mrun': a[:40], 'mrun_ref': b[:40]})
+    if tier == 'thorough':
+        small = [(r, a) for r, a in light if len(r) <= 120][:150]
+        try:
+            vm = coq_eval([r for r, _ in small])
+            res['vm_compute_compared'] = len(vm)
+            for (r, a), b in zip(small, vm):
+                if a != b:
+                    res['mismatches'].append({'request': r[:40], 'mrun': a[:40], 'vm_compute': b[:40]})
+        except Exception as exc:  # noqa
+            res['vm_compute_error'] = str(exc)[:300]
+    return res
 
 
 def coq_eval(requests, tag='x'):
